@@ -241,8 +241,22 @@ impl Sub for Bm25 {
             prop::collection::vec(any::<u16>(), 0..5),
             prop_oneof![2 => Just(vec![]), 1 => prop::collection::vec(any::<u16>(), 1..5)],
             prop::collection::vec(q, 10..30),
+            0u8..16,
+            4300usize..7000,
         )
-            .prop_map(|(mut docs, cuts, deletes, queries)| {
+            .prop_map(|(mut docs, mut cuts, deletes, queries, big, target)| {
+                if big == 0 {
+                    // a corpus with more than 4096 documents per segment (the union scorer's window): the short document
+                    // list replicated, at most two cuts
+                    for d in docs.iter_mut() {
+                        d.pad %= 12;
+                    }
+                    let base = docs.clone();
+                    while docs.len() < target {
+                        docs.extend(base.iter().cloned());
+                    }
+                    cuts.truncate(1);
+                }
                 // at most two very long documents per corpus (cost)
                 let mut big = 0;
                 for d in docs.iter_mut() {
@@ -258,7 +272,7 @@ impl Sub for Bm25 {
             .boxed()
     }
     fn mandatory_labels(&self, _t: Tier) -> Vec<&'static str> {
-        vec!["segments>=2", "has_deletes", "no_deletes_merge_invariance", "phrase", "dismax", "boost", "const", "bool_sum", "doc_len>1000", "norm_bucket_inexact", "single_clause_bit_identical"]
+        vec!["segments>=2", "has_deletes", "no_deletes_merge_invariance", "phrase", "dismax", "boost", "const", "bool_sum", "doc_len>1000", "norm_bucket_inexact", "single_clause_bit_identical", "segment>4096_docs"]
     }
     fn run(&self, c: &Bm25Case, cx: &Ctx) -> CaseResult {
         let mut sb = Schema::builder();
@@ -327,6 +341,7 @@ impl Sub for Bm25 {
         let nseg = searcher.segment_readers().len();
         let case_fp = fp(&(&c.docs, &c.cuts, &c.deletes));
         cx.label_if(nseg >= 2, "segments>=2");
+        cx.label_if(searcher.segment_readers().iter().any(|s| s.max_doc() > 4096), "segment>4096_docs");
         cx.label_if(!deleted.is_empty(), "has_deletes");
         cx.label_if(c.docs.iter().any(|d| total_len(d) > 1000), "doc_len>1000");
         cx.label_if(c.docs.iter().any(|d| quantised_len(total_len(d)) != total_len(d)), "norm_bucket_inexact");
@@ -367,7 +382,7 @@ impl Sub for Bm25 {
                 }
             }
             // find a live non-matching address for (2)
-            'outer: for (ord, seg) in searcher.segment_readers().iter().enumerate() {
+            'outer: for (ord, seg) in searcher.segment_readers().iter().enumerate().filter(|_| n <= 500) {
                 for doc in seg.doc_ids_alive() {
                     let a = DocAddress::new(ord as u32, doc);
                     if !got.values().any(|x| x.1 == a) {
